@@ -23,6 +23,8 @@ def check(ctx: Ctx, col: Collector, tier: str) -> None:
              "specialisation of _is_public over name form x parent kind x parent publicity x re-export verdict", floor=30)
     col.spec("C04.REEXPORT-GUARDS", "a re-export makes a declaration public only if the import really names it and the exported name is public",
              "path facts of every `return True` of _check_publicity_in_reexports", floor=3)
+    col.spec("C04.REEXPORT-SOURCE", "only an import that binds a name of the __init__ module can re-export: imports inside functions or classes are not recorded",
+             "per-iteration effects of the import loop of enter_moduledef over (import class, is_top_level)", floor=6)
     col.spec("C04.REEXPORT-TABLE", "each import form of a re-exporting __init__ (wildcard, whole module, by name) makes exactly the declarations public that it names under a public name",
              "specialisation of the three import loops of _check_publicity_in_reexports over package relation x name equality x alias x name form x parent", floor=60)
     col.spec("C04.MEMO-KEY", "the publicity of a declaration does not depend on which declaration was analysed before", "memo-key completeness in the visitor", floor=1)
@@ -208,6 +210,33 @@ def check(ctx: Ctx, col: Collector, tier: str) -> None:
     good = others <= {"None"}
     (col.ok if good else col.bad)("C04.REEXPORT-GUARDS", f"{key0}::verdicts", repo.loc(VISITOR, rfi.node), f"verdicts: True or {sorted(others)}",
                                   *([] if good else [f"_check_publicity_in_reexports returns {sorted(others)} besides True/None"]))
+
+    # ------------------------------------------------------------------ REEXPORT-SOURCE
+    mfi = repo.function(VISITOR, f"{VCLS}.enter_moduledef")
+    col.touched(mfi)
+    mit = ctx.interp(mfi)
+    mnode = Obj("MypyFile", (("path", Sym("node.path")), ("imports", Sym("node.imports")), ("defs", ListV(())), ("fullname", Sym("node.fullname")), ("name", Sym("node.name"))))
+    mit.run_function(mfi, {"self": Sym("self"), "node": mnode}, visitor_state(()))
+    il = find_loops(mit, mfi, lambda v: sym_is(v, "node.imports"))
+    if len(il) != 1:
+        raise AnalysisError("import loop of enter_moduledef not found")
+    inode, _, _, ientry = il[0]
+    for icls, extra in (("Import", (("ids", ListV((ListV((Sym("imp.name"), Sym("imp.alias")), kind="tuple"),))),)),
+                        ("ImportFrom", (("id", Sym("imp.id")), ("names", ListV((ListV((Sym("imp.name"), Sym("imp.alias")), kind="tuple"),))))),
+                        ("ImportAll", (("id", Sym("imp.id")),))):
+        for top in (True, False):
+            el = Obj(icls, extra + (("is_top_level", Const(top)),))
+            recorded = set()
+            for o in run_body(mit, inode, ientry.clone(), el):
+                recorded.add(any(e.kind == "mutate" and e.target in ("qualified_imports.append", "wildcard_imports.append") for e in new_effects(o, ientry)))
+            key = f"{VISITOR}::{VCLS}.enter_moduledef::imports::{icls},top-level={top}"
+            if recorded == {top}:
+                col.ok("C04.REEXPORT-SOURCE", key, repo.loc(VISITOR, inode), f"recorded as a possible re-export: {top}")
+            else:
+                col.bad("C04.REEXPORT-SOURCE", key, repo.loc(VISITOR, inode), f"recorded: {sorted(recorded)}, reference {top}",
+                        f"a {icls} statement with is_top_level={top} is {'recorded' if True in recorded else 'not recorded'} as a possible re-export: an import inside a function of an __init__.py "
+                        f"(`def load(): from ._impl import _secret as secret`) makes a private declaration public" if not top else
+                        f"a module-level {icls} statement is not recorded, so what it re-exports stays private and is dropped")
 
     # a relative import names its target relative to the re-exporting package, at any depth
     dit = ctx.interp(rfi, inline={"is_internal"})
